@@ -352,7 +352,7 @@ impl Sink {
                 match f.prop {
                     "C06" if f.msg.contains("aborted by a panic") => { kept.push(monitors::Fail { prop: "C06", msg: f.msg.clone() }); kept.push(monitors::Fail { prop: "C16", msg: f.msg }); }
                     "C06" | "C07" | "C16" => kept.push(monitors::Fail { prop: "C16", msg: f.msg }),
-                    "C05" if f.msg.contains("cut short by a panic") => kept.push(f),
+                    "C05" | "C15" if f.msg.contains("cut short by a panic") => kept.push(f),
                     "C02" if f.msg.contains("recorded sizes") => {
                         kept.push(monitors::Fail { prop: "C02", msg: f.msg.clone() });
                         // on the line of the panic itself it is also the accounting of the operation that unwound
